@@ -5,6 +5,8 @@ import (
 	"runtime"
 	"sort"
 	"sync"
+
+	"github.com/deepteams/webp/internal/verifhook"
 )
 
 // VP8L histogram clustering for lossless encoding.
@@ -1259,6 +1261,7 @@ func histogramRemap(origHistos []*Histogram, imageHisto *HistoSet,
 			// Use sentinel 0xFFFF for nil histograms, then fix up serially.
 			const nilSentinel = 0xFFFF
 			numWorkers := runtime.GOMAXPROCS(0)
+			numWorkers = verifhook.Workers(verifhook.SiteLosslessHistoRemap, numWorkers)
 			if numWorkers > n {
 				numWorkers = n
 			}
@@ -1271,6 +1274,7 @@ func histogramRemap(origHistos []*Histogram, imageHisto *HistoSet,
 				if end > n {
 					end = n
 				}
+				verifhook.Range(verifhook.SiteLosslessHistoRemap, start, end)
 				go func(start, end int) {
 					defer wg.Done()
 					for i := start; i < end; i++ {
@@ -1362,6 +1366,7 @@ func parallelComputeHistogramCost(histos []*Histogram) {
 		return
 	}
 	numWorkers := runtime.GOMAXPROCS(0)
+	numWorkers = verifhook.Workers(verifhook.SiteLosslessHistoCost, numWorkers)
 	if numWorkers > n {
 		numWorkers = n
 	}
@@ -1374,6 +1379,7 @@ func parallelComputeHistogramCost(histos []*Histogram) {
 		if end > n {
 			end = n
 		}
+		verifhook.Range(verifhook.SiteLosslessHistoCost, start, end)
 		go func(start, end int) {
 			defer wg.Done()
 			for i := start; i < end; i++ {
